@@ -45,3 +45,21 @@ func H_Perpetual_ClosePositions_TwoOfOnePool() { h_c10.H_Perp_ClosePositions_Two
 //vrf:max-paths 8000
 //vrf:tier thorough
 func H_Perpetual_ClosePositions() { h_c09.H_ClosePositions_Long_AtomCollateral() }
+
+//vrf:cover fed
+//vrf:bound see h_c09.H_ExternalLiquidityFeed_KeepsReserves
+//vrf:assert-prefix C01
+func H_ExternalLiquidityFeed_WithPerpetualPositions() { h_c09.H_ExternalLiquidityFeed_KeepsReserves() }
+
+//vrf:summary (*github.com/elys-network/elys/x/amm/types.Pool).JoinPool => h_c02.SumPoolJoin
+//vrf:cover join-ok
+//vrf:bound see h_c09.H_AmmJoin_KeepsAccountedPool
+//vrf:assert-prefix C01
+func H_Join_WithPerpetualPositions() { h_c09.H_AmmJoin_KeepsAccountedPool() }
+
+//vrf:cover done
+//vrf:bound see h_c10.H_Perp_ClosePositions_SamePositionThrice_Ledger
+//vrf:max-paths 6000
+func H_Perpetual_ClosePositions_SamePositionRepeated() {
+	h_c10.H_Perp_ClosePositions_SamePositionThrice_Ledger()
+}
